@@ -228,6 +228,25 @@ def expand(tpl_path, canary=False, only_props=None):
             units.append(u)
             i += 1
             continue
+        if s.startswith('//@const'):
+            # copy a (possibly nested) `const NAME: T = EXPR;` item verbatim, optionally renamed (R9)
+            opts = parse_kv(s[len('//@const'):])
+            src, m = load(opts['file'])
+            within = (0, len(m))
+            if opts.get('path'):
+                it = X.locate(src, m, opts['path'].split('/'), opts['file'])
+                within = (it.body_open, it.body_close)
+            mm = re.search(r'\bconst\s+' + re.escape(opts['name']) + r'\s*:', m[within[0]:within[1]])
+            if not mm:
+                raise X.AnchorLost('%s: const %s not found' % (opts['file'], opts['name']))
+            a = within[0] + mm.start()
+            b = m.find(';', a) + 1
+            text = src[a:b]
+            if opts.get('rename'):
+                text, _ = X.rename_ident(text, opts['name'], opts['rename'])
+            out.append((opts.get('vis', '') + ' ' + text).strip())
+            i += 1
+            continue
         if s.startswith('//@fn') or s.startswith('//@item'):
             is_fn = s.startswith('//@fn')
             opts = parse_kv(s[5:] if is_fn else s[7:])
